@@ -37,4 +37,22 @@ def encStrs (xs : List Str) : String :=
 
 def showErr (e : PyErr) : String := "err " ++ e.name
 
+def decStrs (toks : List String) : Option (List Str) := toks.mapM decStr
+
+/-- a token that must decode to exactly one character -/
+def char1 (tok : String) : Option Char := do
+  let s ← decStr tok
+  match s with
+  | [c] => some c
+  | _ => none
+
+def parseNat (tok : String) : Option Nat :=
+  let s := tok.toList
+  if s.all Py.isAsciiDigit && !s.isEmpty then some (Py.natOfDigits s) else none
+
+def showBool (b : Bool) : String := if b then "T" else "F"
+
+def parseBool (tok : String) : Option Bool :=
+  if tok = "T" then some true else if tok = "F" then some false else none
+
 end N0.Proto
